@@ -245,15 +245,15 @@ Definition bad_ident (tys : list (ty * nat)) : list Z :=
       (combine (seq 0 (length tys)) tys))
     (combine (seq 0 (length tys)) tys).
 
-(** flattened(): (failure, leaves of the result in order, result is self) *)
-Definition flat_case := (exc * list (cls * nat) * bool)%type.
+(** flattened(): (failure, leaves of the result in order).  Whether the result is `self` is an
+    implementation detail ([flattened_is_self]) and deliberately not compared. *)
+Definition flat_case := (exc * list (cls * nat))%type.
 Definition bad_flat (c : flat_case) : bool :=
   match c with
-  | (e, lv, self) =>
+  | (e, lv) =>
       negb (leaf_list_eqb (leaves (flattened e)) lv
             && leaf_list_eqb (leaves e) lv
-            && negb (existsb is_node (match flattened e with Node l => l | _ => [] end))
-            && Bool.eqb (flattened_is_self e) self)
+            && negb (existsb is_node (match flattened e with Node l => l | _ => [] end)))
   end.
 Definition bad_flats (l : list flat_case) : list nat := filter_idx bad_flat l.
 
